@@ -6,6 +6,7 @@ import (
 	"regexp"
 	"strconv"
 	"strings"
+	"sync"
 	"testing"
 
 	sse "github.com/tmaxmax/go-sse"
@@ -180,6 +181,16 @@ func c01Check(r *fw.Run, key, in string, seg segSpec, entry string, stopAt int, 
 	}
 	wantEv := refEvents(*want)
 	wantEnd := refEnd(*want)
+	if seg.EndWrapEOF {
+		// a failed read: events flushed only at a clean end are not dispatched, the error is reported as itself
+		wantEv = wantEv[:0:0]
+		for _, e := range want.Events {
+			if !e.AtEOF {
+				wantEv = append(wantEv, obsEvent{e.ID, e.Type, e.Data})
+			}
+		}
+		wantEnd = "rerr_wrapeof"
+	}
 	if stopAt >= 0 {
 		if stopAt < len(wantEv) {
 			wantEv = wantEv[:stopAt+1]
@@ -218,7 +229,7 @@ func c01Input(r *fw.Run, key, in string, rng *rand.Rand, allCuts bool, randomSeg
 	if len(wr.Events) >= 2 {
 		r.Count("inputs_with_2plus_events", 1)
 	}
-	segs := []segSpec{{Kind: "whole"}, {Kind: "whole", EOFWithLast: true}}
+	segs := []segSpec{{Kind: "whole"}, {Kind: "whole", EOFWithLast: true}, {Kind: "whole", EndWrapEOF: true}}
 	if len(in) <= 3000 {
 		segs = append(segs, segSpec{Kind: "bytes"}, segSpec{Kind: "bytes", ZeroEvery: 3})
 	}
@@ -308,6 +319,75 @@ func TestC01(t *testing.T) {
 			c01Check(r, key, in, sg, "read", -1, &wr, &wc, true)
 			c01Check(r, key, in, sg, "conn", -1, &wr, &wc, true)
 		}
+	}
+	// (N) overlapping Reads: a Read started inside another Read's callback, and Reads running in
+	// several goroutines at once, must not disturb each other
+	nn := r.N(400, 8000)
+	for i := 0; i < nn; i++ {
+		if !r.Mine("N", i) {
+			continue
+		}
+		key := fw.Key("N", i)
+		rng := r.Rand("N", i)
+		a, b := c01GenC(rng), c01GenC(rng)
+		if len(a) > 30000 || len(b) > 30000 {
+			continue
+		}
+		r.Begin(key, "nested/concurrent")
+		wa, wb := ref.Interpret(a, ref.Opts{Adapt: true}), ref.Interpret(b, ref.Opts{Adapt: true})
+		var gotA, gotB []obsEvent
+		nested := 0
+		sse.Read(strings.NewReader(a), nil)(func(e sse.Event, err error) bool {
+			if err != nil {
+				return false
+			}
+			gotA = append(gotA, obsEvent{strings.Clone(e.LastEventID), strings.Clone(e.Type), strings.Clone(e.Data)})
+			if nested < 3 {
+				nested++
+				gotB = gotB[:0]
+				sse.Read(&mon.ChunkReader{Data: b, Cuts: mon.Every(len(b), 700)}, nil)(func(e2 sse.Event, err2 error) bool {
+					if err2 == nil {
+						gotB = append(gotB, obsEvent{strings.Clone(e2.LastEventID), strings.Clone(e2.Type), strings.Clone(e2.Data)})
+					}
+					return err2 == nil
+				})
+				if !eqEvents(gotB, refEvents(wb)) {
+					r.Violation(key, []string{"nested_read_disturbed"}, map[string]any{"outer": fw.Q(fw.Trunc(a, 300)), "inner": fw.Q(fw.Trunc(b, 300)), "got": fmtEvents(gotB), "want": fmtEvents(refEvents(wb))}, "C01: a Read run inside another Read's callback yielded %d events, want %d", len(gotB), len(wb.Events))
+				}
+			}
+			return true
+		})
+		if !eqEvents(gotA, refEvents(wa)) {
+			r.Violation(key, []string{"nested_read_disturbed"}, map[string]any{"outer": fw.Q(fw.Trunc(a, 300)), "got": fmtEvents(gotA), "want": fmtEvents(refEvents(wa))}, "C01: a Read whose callback runs another Read yielded %d events, want %d", len(gotA), len(wa.Events))
+		}
+		// concurrent
+		var wg sync.WaitGroup
+		bad := make([]bool, 4)
+		for g := 0; g < 4; g++ {
+			in, want := a, wa
+			if g%2 == 1 {
+				in, want = b, wb
+			}
+			wg.Add(1)
+			go func() {
+				defer wg.Done()
+				for rep := 0; rep < 3; rep++ {
+					o := runRead(&mon.ChunkReader{Data: in, Cuts: mon.Every(len(in), 500+g)}, nil, -1)
+					if !eqEvents(o.Events, refEvents(want)) || o.End != refEnd(want) || len(o.Proto) > 0 {
+						bad[g] = true
+					}
+				}
+			}()
+		}
+		wg.Wait()
+		for g := range bad {
+			if bad[g] {
+				r.Violation(key, []string{"concurrent_read_disturbed"}, map[string]any{"a": fw.Q(fw.Trunc(a, 300)), "b": fw.Q(fw.Trunc(b, 300))}, "C01: Reads running concurrently in different goroutines disturbed each other")
+				break
+			}
+		}
+		r.Count("overlapping_read_cases", 1)
+		r.Eval(fw.Hash("c01N", a, b), len(wa.Events) > 0 && len(wb.Events) > 0)
 	}
 	// (C) grammar-random streams under random multi-cut segmentations.
 	nc := r.N(6000, 300000)
